@@ -11,6 +11,7 @@ import CBV.Lemmas.C06Fmt
 import CBV.Lemmas.C06Repr
 import CBV.Lemmas.C06Lex
 import CBV.Lemmas.C06ReprGen
+import CBV.Lemmas.C06ReprParse
 import Mathlib.Data.String.Basic
 import CBV.Gen.TC06
 
@@ -474,6 +475,41 @@ theorem T_C06_repr_generated_partial (x : Rat) (m : Nat) (e : Int)
 example : shortestFrom tenth (absR tenth) (decPoint (absR tenth)) 17 1 = some (1, -1) ∧
     shortestFrom (5224175567749775 / 4503599627370496) (absR (5224175567749775 / 4503599627370496))
       (decPoint (absR (5224175567749775 / 4503599627370496))) 17 1 = some (116, -2) := by decide +kernel
+
+/-- **T_C06_repr_accepted_fixed_partial.** The text `pyRepr` prints for a positive double is accepted by the validator `reprOk`
+    — so by `T_C06_repr_value` it denotes a value within half an ulp — whenever (i) the digit search finds a candidate (the single
+    arithmetic fact left open: for a normal binary64 `x` the correctly rounded 17-digit decimal lies in the rounding interval,
+    `10^(dp−17)/2 < 2^(⌊log2 x⌋−53)`) and (ii) the decimal point position is in Python's fixed-notation range `-4 < dp ≤ 16`
+    (all three fixed layouts `0.00ddd`, `ddd00.0`, `dd.ddd` are read back: `floatValue_reprLayout_fixed`).
+    Full statement (not proved): the same without (i), for negative doubles (a leading `-`) and for the exponent layouts. -/
+theorem T_C06_repr_accepted_fixed_partial (x : Rat) (hx : 0 < x) (m : Nat) (e : Int)
+    (h : shortestFrom x (absR x) (decPoint (absR x)) 17 1 = some (m, e))
+    (h1 : -4 < ((Nat.toDigits 10 (stripZeros 20 m e).1).length : Int) + (stripZeros 20 m e).2)
+    (h2 : ((Nat.toDigits 10 (stripZeros 20 m e).1).length : Int) + (stripZeros 20 m e).2 ≤ 16) :
+    reprOk false x (pyReprChars false x) = true := reprOk_pyReprChars_fixed x hx m e h h1 h2
+
+/-- the hypotheses hold for the double nearest to 0.1 (layout `0.1`) and for 1.16 (layout `1.16`) -/
+example : reprOk false tenth (pyReprChars false tenth) = true :=
+  T_C06_repr_accepted_fixed_partial tenth (by unfold tenth; norm_num) 1 (-1) (by decide +kernel) (by decide +kernel)
+    (by decide +kernel)
+
+example : reprOk false (5224175567749775 / 4503599627370496) (pyReprChars false (5224175567749775 / 4503599627370496)) = true :=
+  T_C06_repr_accepted_fixed_partial _ (by norm_num) 116 (-2) (by decide +kernel) (by decide +kernel) (by decide +kernel)
+
+/-- **T_C06_repr_layout_fixed.** Reading the fixed-notation layouts back: for any digits `ds` (value `M`) and decimal point position
+    `-4 < dp ≤ 16`, `floatValue (reprLayout ds dp) = M · 10^(dp − |ds|)`. -/
+theorem T_C06_repr_layout_fixed (ds : List Char) (dp : Int) (hne : ds ≠ []) (hd : ∀ c ∈ ds, c.isDigit = true)
+    (h1 : -4 < dp) (h2 : dp ≤ 16) :
+    floatValue (reprLayout ds dp) =
+      some (((Nat.ofDigitChars 10 ds 0 : Nat) : Rat) * pow10R (dp - (ds.length : Int))) :=
+  floatValue_reprLayout_fixed ds dp hne hd h1 h2
+
+example : floatValue (reprLayout "116".toList 1) =
+    some (((Nat.ofDigitChars 10 "116".toList 0 : Nat) : Rat) * pow10R (1 - ("116".toList.length : Int))) :=
+  T_C06_repr_layout_fixed "116".toList 1 (by decide) (by decide) (by decide) (by decide)
+
+example : reprLayout "116".toList 1 = "1.16".toList ∧ reprLayout "5".toList (-2) = "0.005".toList ∧
+    reprLayout "27".toList 4 = "2700.0".toList ∧ Nat.ofDigitChars 10 "116".toList 0 = 116 := by decide
 
 /-! ### the debug VTK -/
 
